@@ -66,6 +66,10 @@ CHECKS = {
   "runtime monitoring of the real name builder/parser, of the sanitiser through a real SendOnce, and of a real Receiver on buckets with decoy names",
   "Round-trip and chronological-order oracles over >10^5 generated names per run (every digit-rollover boundary class 1970..2262, +-1ns/1s neighbours, non-UTC locations), panic monitor on arbitrary strings, sanitiser observed through the name and metadata of real uploaded blobs, and a real Receiver run against buckets full of other databases' and malformed names.",
   "Database names over the documented safe alphabet only. Trusted: Go's time package for the reference ordering.", "DESIGN.md section 6 C15"),
+ "C18": ("fault_enumeration",
+  "runtime monitoring of real LoadOnce merges with failures injected at enumerated positions (DBI index x entry position x failure kind), byte-exact before/after dumps of the whole LMDB, and a concurrent reader checking all-or-none per snapshot batch id",
+  "Failure kinds: malformed entry bytes (4 variants, lazily parsed so they surface mid-merge), unsupported/inconsistent transforms, pre-v3 snapshot for a missing DBI in shadow mode (with/without override_create_flags), LMDB map full (map 1-8 MB vs snapshots 0.5-16 MB), cancellation after the k-th context poll, format x compat versions 0..4 x 0..4, private DBIs in the snapshot; native and shadow. A failed merge must leave dump and LastTxnID unchanged, a successful one must be complete, a reader must never see part of a snapshot, older formats must keep their documented meaning.",
+  "Positions inside a DBI: first/middle/last entry. Cancellation via a context that is cancelled after k polls.", "DESIGN.md section 6 C18"),
  "C19": ("exploration",
   "runtime differential monitoring of the real strategies inside real LMDB transactions against a map model driven by a scripted decision-table iterator",
   "Update, IterUpdate and EmptyPut are executed in real LMDB write transactions with a scripted iterator (keep/replace/delete/append-to-argument per key); the DBI read back in LMDB's own order must equal a map model. Exhaustive over all status x decision assignments for 4 (quick) / 5 (thorough) keys x byte, 4-byte and 8-byte integer key sets, plus random templates up to 5000 keys and disorder (swapped, duplicated, shuffled input).",
